@@ -1,13 +1,15 @@
 #!/bin/sh
-# tools/confirm_seed.sh <id(lowercase)>: confirm a seeded change in its scratch worktree /tmp/seed_<id>:
+# tools/confirm_seed.sh <id|dirname>: confirm a seeded change in its scratch worktree:
 # demo fails with the change, passes without, and the existing suite passes with the change.
-ID=$1; WT=/tmp/seed_$ID
+A=$1
+case "$A" in *_*) WT=/tmp/$A; ID=${A#*_};; *) WT=/tmp/seed_$A; ID=$A;; esac
+TAG=$(basename $WT)
 cd $WT || exit 9
-git diff -- menelaus > /tmp/confirm_$ID.diff
-cmp -s /tmp/confirm_$ID.diff patch.diff || echo "NOTE: patch.diff differs from working-tree diff"
-PYTHONPATH=$WT /venv/bin/python demo_$ID.py > /tmp/confirm_${ID}_with.txt 2>&1; W=$?
+git diff -- menelaus > /tmp/confirm_$TAG.diff
+cmp -s /tmp/confirm_$TAG.diff patch.diff || echo "NOTE: patch.diff differs from working-tree diff"
+PYTHONPATH=$WT /venv/bin/python demo_$ID.py > /tmp/confirm_${TAG}_with.txt 2>&1; W=$?
 git apply -R patch.diff || exit 8
-PYTHONPATH=$WT /venv/bin/python demo_$ID.py > /tmp/confirm_${ID}_without.txt 2>&1; WO=$?
+PYTHONPATH=$WT /venv/bin/python demo_$ID.py > /tmp/confirm_${TAG}_without.txt 2>&1; WO=$?
 git apply patch.diff || exit 7
 T=$(PYTHONPATH=$WT /venv/bin/python -m pytest -q -p no:cacheprovider --timeout=900 tests/menelaus 2>&1 | tail -1)
-echo "seed $ID: demo_with_change_exit=$W demo_without_exit=$WO suite='$T'"
+echo "$TAG: demo_with_change_exit=$W demo_without_exit=$WO suite='$T'"
